@@ -27,4 +27,5 @@ def run(tier, seed):
     from bounded import text_bounded as tb
     from bounded.core import attach
     attach(ctx, tb.run((PID,), tier, seed))
-    return finish(ctx, LEVEL)
+    from runner.core import companion_replayer
+    return finish(ctx, LEVEL, replayers=[(r'(check_strings|wrong_content|wrong_number|check_for_permutation_failures|can_ignore|normalize_function)', companion_replayer(ctx, ('C04.',)))])
